@@ -17,7 +17,7 @@ ENGINES = [
      "conformance replay of recorded real traces"},
     {"name": "E4-sched", "path": "mc/e4.py", "kind_free_text":
      "preemption-bounded (CHESS-style) interleaving of real threads calling minimize(), sys.settrace baton scheduler"},
-    {"name": "E5-lattice", "path": "mc/e5.py", "kind_free_text":
+    {"name": "E5-lattice", "path": "mc/e5sub.py", "kind_free_text":
      "bounded-exhaustive input-lattice enumeration for pure functions (subsolvers, translators, option completion)"},
 ]
 
@@ -136,6 +136,55 @@ add("C19", "E5-lattice", "exploration",
     "reference table in mc/props/c19.py, defaults parsed from the docstring", "DESIGN.md 5/C19")
 
 
+add("C10", "E1-envx", "exploration",
+    "metamorphic/differential enumeration of pairs of executions (restatements of the same problem) over the "
+    "alphabet, bit-level comparison of evaluation sequences and results; internal linear residuals checked at every "
+    "evaluated point",
+    "For every enumerated pair the two runs must evaluate the same points in the same order and return the same "
+    "result; no hand-written expected values are involved.",
+    E1NOTE + "; the counterpart statements are built by the harness (mc/props/c10.py)", "DESIGN.md 5/C10")
+add("C11", "E4-sched + E1-envx", "model_checking",
+    "stateless model checking of the real code: all interleavings of 2 (3) real threads calling minimize() with at "
+    "most 1 (2) preemptions under a cooperative scheduler (scheduling points: user functions, AST-flagged shared-state "
+    "writers, functions receiving shared objects), plus exhaustive sequential explorations (repetition, argument and "
+    "module-state fingerprints, nesting at every evaluation index)",
+    "Every explored schedule must leave each thread's evaluation log and result bit-identical to the same call made "
+    "alone, without exception or deadlock; sequentially, any write to an argument or to module state is caught "
+    "deterministically at the first user call after it.",
+    "C extensions are atomic under the baton; 2-3 threads stand for 2..16 (small-scope argument); harness-owned pure "
+    "user functions", "DESIGN.md 5/C11")
+E2NOTE = ("states de-duplicated on the exact rational reference state; real object advanced by its real methods; "
+          "histories replayed on fresh objects for conformance; exact arithmetic in fractions.Fraction written in the harness")
+add("C12", "E2-opseq + E1-envx", "model_checking",
+    "explicit-state breadth-first search over update/shift/reset operation sequences on a real Models object "
+    "(every index x every lattice point), enabled by exact poisedness, with a lock-step exact reference; monitors on "
+    "real runs",
+    "After every transition the three models must reproduce the recorded values (tolerance eps*kappa), the constraint "
+    "model fed the objective's data must be bit-identical to the objective model, and the stored points/values must "
+    "be the supplied ones; in real runs the same after every wrapped call.",
+    E2NOTE, "DESIGN.md 5/C12")
+add("C13", "E2-opseq", "model_checking",
+    "same breadth-first search as C12; every new state's models are compared with the exact rational "
+    "least-Frobenius-norm / symmetric-Broyden recursion at probe points, with each other's views and across shifts",
+    "Value, gradient and Hessian of each model must agree with the exact recursion within a rounding budget "
+    "accumulated along the history; hess/hess_prod/curv/grad must describe one quadratic; a shift must not change it.",
+    E2NOTE, "DESIGN.md 5/C13")
+add("C14", "E2-opseq", "model_checking",
+    "same state space; for every reached poised state, every candidate within a few radii and every index, "
+    "Models.determinants (both call forms) against the exact determinant ratio",
+    "Each ratio must equal the exact det(W_new)/det(W_old) within eps*kappa times the exact term magnitudes; the "
+    "reference itself is cross-checked against directly computed exact determinants.",
+    E2NOTE, "DESIGN.md 5/C14")
+add("C18", "E2-opseq + E1-envx", "model_checking",
+    "explicit-state breadth-first search of the radius-management automaton on the real TrustRegion methods for "
+    "every constants/radii configuration on the boundary lattice, direct count of reductions, and monitors at every "
+    "iteration of real runs",
+    "radius_final <= resolution <= radius, monotone resolution and the logarithmic bound are checked in every "
+    "automaton state; penalty, centre (least merit) and never-replaced centre at every iteration of real runs.",
+    "bare TrustRegion objects carry (radius, resolution, constants) - the only state the rules read; merits read "
+    "through the real object", "DESIGN.md 5/C18")
+
+
 def main():
     man = {
         "version": 1,
@@ -156,8 +205,7 @@ def main():
         "not_applicable": [],
     }
     for e in ENGINES:
-        serves = sorted(p for p, c in CHECKS.items() if c["engine"].startswith(e["name"].split("-")[0])
-                        or e["name"] in c["engine"])
+        serves = sorted(p for p, c in CHECKS.items() if e["name"] in c["engine"])
         if os.path.exists(os.path.join(HERE, e["path"])):
             man["engines"].append(dict(e, serves_properties=serves))
     for pid in ALL:
